@@ -36,7 +36,9 @@ func cmdC19Race(args []string) {
 			}()
 		}
 		run(func(i int) { m.Updated("a", i) })
-		run(func(i int) { m.UpdatedWith("b", func(o fp.Option[int]) fp.Option[int] { return fp.Some(o.OrElse(0) + 1) }) })
+		run(func(i int) {
+			m.UpdatedWith("b", func(o fp.Option[int]) fp.Option[int] { return fp.Some(o.OrElse(0) + 1) })
+		})
 		run(func(i int) {
 			if i%3 == 0 {
 				m.Removed("c")
